@@ -8,6 +8,8 @@ import (
 	"errors"
 	"fmt"
 	"strings"
+
+	"github.com/ozanh/ugo/token"
 )
 
 var (
@@ -64,6 +66,13 @@ func NewOperandTypeError(token, leftType, rightType string) *Error {
 	return ErrType.NewError(
 		fmt.Sprintf("unsupported operand types for '%s': '%s' and '%s'",
 			token, leftType, rightType))
+}
+
+// newNegativeShiftError creates a new Error from ErrType for a negative shift
+// count, which would otherwise cause a Go runtime panic.
+func newNegativeShiftError(tok token.Token, count int64) *Error {
+	return ErrType.NewError(
+		fmt.Sprintf("negative shift count for '%s': %d", tok.String(), count))
 }
 
 // NewArgumentTypeError creates a new Error from ErrType.
